@@ -364,6 +364,8 @@ type Subst struct {
 	Label   string
 	Name    string // "" = keep
 	Version string // "" = keep
+	// Locations != nil: the package was found at these paths instead.
+	Locations []string
 	// PurlEdit != "": edit every *purl.PackageURL held in an exported top-level field of the
 	// metadata (packages of the SBOM extractors keep the PURL they read there): "no-version",
 	// "no-namespace", "no-qualifiers", "no-subpath", "name-only", "with-subpath", "with-namespace",
@@ -579,7 +581,29 @@ func Substitutions() []Subst {
 	all := " @/?#%+é"
 	out = append(out, Subst{Label: "both:all", Name: "N" + all + "n", Version: "1" + all + "2"})
 	out = append(out, Subst{Label: "name:percent-escape-lookalike", Name: "a%2Fb%40c"})
+	// format / quoting / control characters and a very long string, in name and in version
+	for _, c := range formatClasses {
+		out = append(out, Subst{Label: "name:" + c.l, Name: c.s})
+		out = append(out, Subst{Label: "version:" + c.l, Version: "1" + c.s})
+	}
+	// the same alphabet (plus the percent-encoding classes) in the locations: one location, two
+	// locations (both positions), three locations
+	locs := append([]struct{ l, s string }{{"percent-encoded", "dir/My%20Project/pkg.lock"}, {"space-plus", "dir/a b+c/pkg.lock"}}, formatClasses...)
+	for i, c := range locs {
+		n := locs[(i+1)%len(locs)]
+		out = append(out, Subst{Label: "location:" + c.l, Locations: []string{"dir/" + c.s}})
+		out = append(out, Subst{Label: "locations2:" + c.l + "," + n.l, Locations: []string{"d1/" + c.s, "d2/" + n.s}})
+	}
+	out = append(out, Subst{Label: "locations3", Locations: []string{"d1/" + locs[0].s, "d2/" + locs[2].s, "d3/" + locs[3].s}})
 	return out
+}
+
+// formatClasses: characters with a meaning in format strings, templates, quoting and escaping,
+// control characters, non-ASCII text and a very long string.
+var formatClasses = []struct{ l, s string }{
+	{"fmt-verb-s", "a%sb"}, {"fmt-verb-d", "a%db%v"}, {"fmt-bang", "100%!x"}, {"fmt-percent-end", "a%"},
+	{"braces", "a{}b{0}${HOME}"}, {"backslash", `C:\Users\x\pkg`}, {"quotes", `a"b'c` + "`d"},
+	{"newline", "a\nb"}, {"tab", "a\tb"}, {"nonascii-text", "данные/世界"}, {"very-long", strings.Repeat("long-segment/", 400) + "end"},
 }
 
 // Apply returns a copy of base with the substitution applied (nil if a PurlEdit substitution
@@ -597,6 +621,9 @@ func Apply(base *Item, s Subst) *Item {
 		p.Version = s.Version
 	}
 	p.Locations = append([]string(nil), base.Pkg.Locations...)
+	if s.Locations != nil {
+		p.Locations = append([]string(nil), s.Locations...)
+	}
 	p.Metadata = substMeta(base.Pkg.Metadata, oldN, p.Name, oldV, p.Version)
 	if s.PurlEdit != "" && !editPurlFields(p.Metadata, s.PurlEdit) {
 		return nil // not applicable to this package
